@@ -229,6 +229,18 @@ M = [
             raise
 """, """            raise
 """),
+ ('c12_aio_reset_stops_all_connections', 'C12', 'pymodbus/server/async_io.py',
+  """        if self.client_address in self.server.active_connections:
+            self.server.active_connections.pop(self.client_address)
+""", """        if exc is not None:
+            # the connection broke: drop whatever state the server holds
+            for conn in list(self.server.active_connections.values()):
+                conn.running = False
+                conn.handler_task.cancel()
+            self.server.active_connections = {}
+        elif self.client_address in self.server.active_connections:
+            self.server.active_connections.pop(self.client_address)
+"""),
 ]
 
 
